@@ -12,7 +12,7 @@ while :; do
     id=${n%%-*}
     : > ".work/evalseed-$n.log"
     ( tools/evalseed.py "$d" "$id" > ".work/evalseed-$n.log" 2>&1; grep -H "^check\|NOT kept\|does not apply" ".work/evalseed-$n.log" >> .work/evalall-$R.log ) &
-    while [ "$(jobs -r | wc -l)" -ge 2 ]; do sleep 5; done
+    while [ "$(jobs -r | wc -l)" -ge ${EVALWATCH_N:-2} ]; do sleep 5; done
   done
   sleep 30
   [ -f .work/evalwatch.stop ] && break
